@@ -17,6 +17,7 @@ CONSTANTS
   MinParen = TRUE
   TwoPhase = TRUE
   Rnd = TRUE
+  PtrLv = TRUE
 INIT Init
 NEXT Next
 INVARIANT EmitInv
